@@ -9,7 +9,11 @@ Ownership model of `elfio` objects (property C19), read off elfio.hpp:
  * the header, every section and every segment store *raw pointers* to a convertor and a
    translator (`Body.box`), and lazily loaded sections/segments a raw `istream*` (`Body.stream`).
    Eagerly loaded and created sections never dereference their stream pointer again
-   (`is_loaded`, or `can_be_loaded = false` after a failed read), so it is only recorded for lazy loads;
+   (`is_loaded`, or `can_be_loaded = false` after a failed read), so it is only recorded for lazy loads.
+   (One exception outside this family's edit vocabulary, confirmed with ASan and independent of
+   moves: an eagerly loaded *segment* with `p_filesz == 0` or `PT_NULL` stays `is_loaded = false`;
+   `set_file_size(n)` followed by `get_data()` then reads through the `ifstream` that
+   `load(file_name)` has already destroyed.  The harness has no segment setters for loaded objects.)
  * every pointer of one body has the same target: the eight creation sites of elfio.hpp pass the
    *current owner's* convertor/translator, and both are re-pointed only together with the whole
    body.  (Before fixes/06 children created after a move point to the new owner while the older
